@@ -112,6 +112,11 @@ def gen_pairs(ctx):
         lo, hi = two_values(rnd, 0.001, 0.03, 4)
         pairs.append(('tdp-rate', {'param': 'Drawdown Parameter', 'lo': lo, 'hi': hi, 'margin_over_injected_fluid': round(g * u, 3)},
                       replace(cfg, 'Drawdown Parameter', lo), replace(cfg, 'Drawdown Parameter', hi)))
+    # drawdown rate x lifetime beyond 1 (the remaining-fraction factor changes sign there): the clause has no such limit
+    cfg = replace(replace(replace(configs.synthetic(rnd, nseg=1, resmodel=4, life=30, tspy=2, addons=False), 'Maximum Drawdown', 1),
+                          'Injection Temperature', 50), 'Gradient 1', 50)
+    pairs.append(('tdp-rate', {'param': 'Drawdown Parameter', 'lo': 0.05, 'hi': 0.06, 'rate_x_lifetime': 1.8},
+                  replace(cfg, 'Drawdown Parameter', 0.05), replace(cfg, 'Drawdown Parameter', 0.06)))
     # redrilling interacts with the drawdown rate (recorded finding): always exercised
     cfg = replace(replace(configs.synthetic(rnd, resmodel=4, life=30, tspy=2, addons=False), 'Maximum Drawdown', 0.1), 'Injection Temperature', 50)
     pairs.append(('tdp-rate', {'param': 'Drawdown Parameter', 'lo': 0.003, 'hi': 0.004, 'redrilling': True},
@@ -149,6 +154,16 @@ def gen_pairs(ctx):
                 lo = 0
             pairs.append(('cost', {'param': key, 'lo': lo, 'hi': hi, 'econ': econm, 'enduse': eu, 'plant': pl},
                           replace(cfg, key, lo), replace(cfg, key, hi)))
+    for eu in (1, 2, 31):    # the injection wells' own factor raised to exactly 1 (its default value) while the production factor is another
+        cfg = [(k, v) for k, v in configs.synthetic(rnd, enduse=eu, plant=(9 if eu == 2 else 1), addons=False)
+               if not k.startswith(('Well Drilling and Completion Capital Cost', 'Injection Well Drilling and Completion Capital Cost',
+                                    'Total Capital Cost', 'Number of Injection Wells'))]
+        cfg += [('Well Drilling and Completion Capital Cost Adjustment Factor', configs.fmt(configs.dec(rnd, 0.4, 0.8, 2))),
+                ('Number of Injection Wells', '2')]
+        key = 'Injection Well Drilling and Completion Capital Cost Adjustment Factor'
+        pairs.append(('cost', {'param': key, 'lo': 0.9, 'hi': 1, 'econ': int(dict(cfg)['Economic Model']), 'enduse': eu,
+                               'plant': int(dict(cfg)['Power Plant Type']), 'hi_is_default_value': True},
+                      replace(cfg, key, 0.9), replace(cfg, key, 1)))
     # BICYCLE with a high combined income tax rate and no tax credit: the income-tax term is then the largest term of the
     # levelized cost, so a sign slip in it reverses the response to a capital cost input (at ordinary rates it only shifts it)
     for (eu, pl) in ((1, 1), (2, 9), (2, 5), (2, 6), (31, 2), (42, 3), (52, 4)):
